@@ -59,7 +59,7 @@ ASSUMPTIONS = [
     "about to be replaced in (a hypothesis of C13_render_spec, failure probability <= n^2 * len * 26^-32 per document)",
     "documents whose recipe blocks compile (compile errors are C07/C19) and whose numbers stay inside the number model",
 ]
-RULE = ("documents from rgv/gen/mdgen.py: 1-8 block constructs (headings ATX/setext with and without serving phrases, "
+RULE = ("documents from rgv/gen/mdgen.py (and hand-written ones incl. brace expressions in image alt text): 1-8 block constructs (headings ATX/setext with and without serving phrases, "
         "paragraphs, lists, quotes, raw HTML, reference definitions, other fenced code, indented / recipe / new-recipe "
         "blocks with tiny valid recipes sharing names inside a namespace) with brace expressions in every inline "
         "position; each rendered at k in {1, 2, 1/3, 1.5}; a document is non-trivial when it has a brace expression in "
@@ -629,12 +629,87 @@ def brace_case(source: str, tag: str) -> Case:
                 violation=brace_oracle(source, shown), nontrivial=any(ch.isdigit() for ch in source), tags=["parse-" + tag])
 
 
-def scan_case(text: str, tag: str) -> Case:
+def brace_md_case(body: str, tag: str) -> Optional[Case]:
+    """The same parse observed through compile_markdown(...).scaled_value_strings (plain bodies only)."""
+    M = _M()
+    try:
+        cm = M.compile_markdown("x {" + body + "} y\n")
+    except Exception:
+        return None
+    vals = list(cm.scaled_value_strings.values())
+    if len(vals) != 1:
+        return None
+    return Case(input={"via_md": body}, coq_in=c.string(body), coq_out=f"(OParts {ser.svs(vals[0])})",
+                impl=ser.svs_json(vals[0]), violation=brace_oracle(body, ser.svs_json(vals[0])),
+                nontrivial=any(ch.isdigit() for ch in body), tags=["parse-via-md-" + tag])
+
+
+SCAN_TIME_LIMIT = 5.0
+
+
+def _scan_worker(text: str, q: Any) -> None:
     M = _M()
     found = [(m.start(), m["source"]) for m in M.ScaledValueExpression.pattern.finditer(text)]
+    try:
+        M.compile_markdown(text)
+    except Exception:          # errors are C07's subject; only the time matters here
+        pass
+    q.put(found)
+
+
+def timed_scan(text: str) -> Optional[List[Tuple[int, str]]]:
+    """pattern.finditer(text) and compile_markdown(text) in a child process; None when they take longer than
+    SCAN_TIME_LIMIT seconds together (a regular expression stuck in backtracking cannot be interrupted in-process)."""
+    import multiprocessing as mp
+    ctx = mp.get_context("fork")
+    q = ctx.Queue()
+    p = ctx.Process(target=_scan_worker, args=(text, q))
+    p.start()
+    try:
+        found = q.get(timeout=SCAN_TIME_LIMIT)
+    except Exception:
+        found = None
+    p.join(0.5)
+    if p.is_alive():
+        p.terminate()
+        p.join()
+    return found
+
+
+def scan_case(text: str, tag: str, timed: bool = False) -> Case:
+    M = _M()
+    viol = None
+    if timed:
+        got = timed_scan(text)
+        if got is None:
+            viol = (f"matching brace expressions in a text of {len(text)} characters starting {text[:12]!r} took more "
+                    f"than {SCAN_TIME_LIMIT} s (catastrophic backtracking)")
+            found: List[Tuple[int, str]] = []
+        else:
+            found = got
+    else:
+        found = [(m.start(), m["source"]) for m in M.ScaledValueExpression.pattern.finditer(text)]
     out = c.lst([c.pair(c.n_(a), c.string(b)) for a, b in found], "(N * str)")
-    return Case(input={"scan": text}, coq_in=c.string(text), coq_out=out, impl=found, violation=None,
-                nontrivial=bool(found), tags=["scan-" + tag])
+    inp = {"scan": text if len(text) < 200 else None, "timed": timed}
+    if len(text) >= 200:
+        # long inputs are periodic: store the recipe
+        inp["long"] = LONG_SCAN_RECIPES.get(text)
+    return Case(input=inp, coq_in=c.string(text), coq_out=out, impl=found if len(text) < 200 else len(found), violation=viol,
+                nontrivial=bool(found) or timed, tags=["scan-" + tag])
+
+
+def _long_scan_inputs() -> Dict[str, Any]:
+    """Unclosed braces before long runs: rejected in linear time by a sound pattern, in exponential time by the old
+    one ("{" + 30 digits took 195 s)."""
+    out: Dict[str, Any] = {}
+    for head, unit, n, tail in [("{", "1", 5000, ""), ("{", "\\x", 5000, ""), ("call {", "1", 40, ""),
+                                ("{", "1 1/2 ", 600, ""), ("{", "\\}", 2000, ""), ("{", "\\\\", 2000, "{"),
+                                ("{", "1.5", 1000, " {"), ("{{", "9", 300, "}"), ("{", "7", 3000, "{x}"), ("{", "a\\", 1500, "\n}")]:
+        out[head + unit * n + tail] = [head, unit, n, tail]
+    return out
+
+
+LONG_SCAN_RECIPES = _long_scan_inputs()
 
 
 def image_alt_case(text: str) -> Case:
@@ -659,7 +734,8 @@ BRACE_HAND = ["", "2", "1/2", "1 1/2", "1  \t1/2", "1 /2", "1/ 2", "1 / 2", "1/0
               "1\t/\t2", "½", "٣", "١/٢", "1/2", "x 2 y 3.0 z 1/3", "9007199254740993", "99999999999999999999",
               "1" + "0" * 400, "1" + "0" * 400 + ".5", "1/" + "1" * 4301, "1" * 4301 + " 1/2", "0." + "0" * 30 + "1",
               "123456789.123456789", "3 1/3 cups", "about 2-3", "2x", "2 x 3", "1 / 0 1", "10 1/0", "1 0/5", "0/5", "4/2"]
-SCAN_HAND = ["{2}", "a {2} b {3/4} c", "{", "}", "{}", "{{2}}", "{a{b}c}", "\\{2}", "{2\\}", "{2\\}}", "{\\}", "{\\\\}", "{\\\\\\}}",
+SCAN_HAND = ["{\\\\{}", "{\\\\{}}", "{a\\b}", "{\\\n}", "{\\\n", "{a\\\n\\}", "{\\}x{\\}", "{\\", "{\\}", "{\\\\}", "{a\\}b",
+             "{2}", "a {2} b {3/4} c", "{", "}", "{}", "{{2}}", "{a{b}c}", "\\{2}", "{2\\}", "{2\\}}", "{\\}", "{\\\\}", "{\\\\\\}}",
              "{a\\}b}", "{a\\{b}", "{a\n}", "{a\\\n}", "{1/2} {", "x{1}{2}y", "{\\}\\}\\}", "{\\}\\}\\}}", "{\\", "{a\\", "{1 1/2 x}",
              "}{", "{}{}", "{ٱ}", "{\\{\\}}", "{a}}", "{{a}"]
 
@@ -677,9 +753,12 @@ def gen_brace_sources(rng: random.Random, n: int) -> List[Tuple[str, str]]:
 
 def gen_scan_texts(rng: random.Random, n: int) -> List[Tuple[str, str]]:
     alphabet = ["{", "{", "}", "}", "\\", "\\", "1", "2", "/", " ", "a", "\n", "."]
+    heavy = ["{", "}", "\\", "\\", "\\", "\n", "a"]
     out = []
     for _ in range(n):
         out.append(("".join(rng.choice(alphabet) for _ in range(rng.randrange(0, 16))), "random"))
+    for _ in range(n):
+        out.append(("".join(rng.choice(heavy) for _ in range(rng.randrange(0, 14))), "backslash-heavy"))
     return out
 
 
@@ -714,22 +793,38 @@ def suites(tier: str, seed: int) -> List[Suite]:
             continue
         seen.add(src)
         bp.cases.append(brace_case(src, tag))
+        if tag == "generated" and not any(ch in src for ch in "\\{}*_<>&[]`\n"):
+            cm_case = brace_md_case(src, tag)
+            if cm_case is not None:
+                bp.cases.append(cm_case)
     seen = set()
     for tx, tag in [(t, "hand") for t in SCAN_HAND] + gen_scan_texts(rng, nb):
         if tx in seen:
             continue
         seen.add(tx)
         sc.cases.append(scan_case(tx, tag))
+    for tx in LONG_SCAN_RECIPES:
+        sc.cases.append(scan_case(tx, "long-unclosed", timed=True))
     return [md, bp, sc, ia]
 
 
 def replay(inp: Any) -> Case:
     if "source" in inp:
         return brace_case(inp["source"], "replay")
+    if "via_md" in inp:
+        case = brace_md_case(inp["via_md"], "replay")
+        assert case is not None
+        return case
     if "scan" in inp:
-        return scan_case(inp["scan"], "replay")
-    if "doc" in inp:
-        return image_alt_case(inp["doc"])
+        text = inp["scan"]
+        if text is None:
+            head, unit, n, tail = inp["long"]
+            text = head + unit * n + tail
+        return scan_case(text, "replay", timed=bool(inp.get("timed")))
+    if "doc" in inp:          # the former known finding F3 (brace expression in image alt text), now in the main stream
+        case = doc_case(inp["doc"], None, ["replay"])
+        assert case is not None
+        return case
     gd = _gd_from_json(inp["text"], inp["gen"]) if "gen" in inp else None
     case = doc_case(inp["text"], gd, ["replay"], index=inp.get("index"))
     assert case is not None, "the document's recipe blocks do not compile (outside C13)"
